@@ -48,9 +48,10 @@ def pdb_line(a):
     ch = ""
     if a["charge"]:
         ch = "%d%s" % (abs(a["charge"]), "+" if a["charge"] > 0 else "-")
-    line = "%-6s%5d %4s%1s%3s %1s%4d%1s   %8s%8s%8s%6s%6s          %2s%2s" % (
+    # columns 73-76: segment identifier (written by CHARMM / NAMD / X-PLOR; not one of the property's fields, never a chain identifier)
+    line = "%-6s%5d %4s%1s%3s %1s%4d%1s   %8s%8s%8s%6s%6s      %-4s%2s%2s" % (
         a["record"], a["serial"], nf, a["altloc"] or "", a["resname"], a["chain"], a["resseq"], a["icode"] or "",
-        dec(a["x"], 3), dec(a["y"], 3), dec(a["z"], 3), dec(a["occ"], 2) if a["occ"] is not None else "", dec(a["b"], 2), el, ch)
+        dec(a["x"], 3), dec(a["y"], 3), dec(a["z"], 3), dec(a["occ"], 2) if a["occ"] is not None else "", dec(a["b"], 2), a.get("segid") or "", el, ch)
     assert len(line) == 80, (len(line), line)
     return line
 
